@@ -60,7 +60,7 @@ impl Check for UnrealisedPnl {
             1u8..=3,
             prop::collection::vec(
                 prop_oneof![
-                    4 => (0u8..3, any::<bool>(), 1u32..2000, prop_oneof![3 => Just(10u16), 1 => Just(20u16), 1 => Just(5u16), 1 => 1u16..40], prop_oneof![Just(0u16), 1u16..100], 0i32..2000)
+                    4 => (0u8..3, any::<bool>(), 1u32..2000, prop_oneof![3 => Just(10u16), 1 => Just(20u16), 1 => Just(5u16), 1 => 1u16..40], prop_oneof![3 => Just(0u16), 4 => 1u16..100, 1 => (1u16..100).prop_map(|bp| bp | 0x8000)], 0i32..2000)
                         .prop_map(|(inst, buy, price_q, qty, fee_bp, dt)| EvSpec::Fill { inst, buy, price_q, qty, fee_bp, dt }),
                     3 => (0u8..3, prop_oneof![30 => 1u32..2000, 1 => Just(0u32)], strat::dt()).prop_map(|(inst, price_q, dt)| EvSpec::MarketTrade { inst, price_q, dt }),
                     3 => (0u8..3, prop::option::weighted(0.85, (1u32..2000, 1u16..50)), prop::option::weighted(0.85, (1u32..2000, 1u16..50)), strat::dt())
@@ -171,6 +171,7 @@ impl Check for UnrealisedPnl {
         rep.class_if(opening_with_fee > 0, "opening_fill_with_fee");
         rep.class_if(fills_on_position > 0, "fill_on_existing_position");
         rep.class_if(n >= 2, "several_instruments");
+        rep.class_if(case.events.iter().any(|e| matches!(e, EvSpec::Fill { fee_bp, .. } if fee_bp & 0x8000 != 0)), "fill_with_maker_rebate");
         rep.class_if(case.events.iter().any(|e| matches!(e, EvSpec::MarketTrade { price_q: 0, .. })), "public_trade_at_price_zero");
         rep.nontrivial = tracked_move;
         rep
@@ -178,7 +179,7 @@ impl Check for UnrealisedPnl {
 }
 
 pub fn run(ctx: &mut Ctx) {
-    ctx.rule = "unrealised_pnl: 1..3 instruments on two exchanges; vec(event,1..30|60) of fills (size 0.5/1/2/random, fee 0 or 1..99 bp) interleaved with public trades (1 in 30 at price zero) and L1 updates (15% missing side, 20% stale timestamps) through Engine::process. non-trivial = some instrument with an open position saw >= 2 effective priced market events with different prices after its last fill; distinct by hash of the case.".into();
+    ctx.rule = "unrealised_pnl: 1..3 instruments on two exchanges; vec(event,1..30|60) of fills (size 0.5/1/2/random, fee 0, 1..99 bp, or a maker rebate of 1..99 bp) interleaved with public trades (1 in 30 at price zero) and L1 updates (15% missing side, 20% stale timestamps) through Engine::process. non-trivial = some instrument with an open position saw >= 2 effective priced market events with different prices after its last fill; distinct by hash of the case.".into();
     ctx.assumptions = vec![
         "the instrument's current price is InstrumentDataState::price(); a market event that leaves the instrument's data unchanged (stale timestamp) may leave the estimate unchanged".into(),
         "estimate formula from the docs: sign*q*(price - avg_entry) - (q/q_max)*fees_enter; tolerance 1e-18 relative".into(),
